@@ -224,6 +224,9 @@ def gen_scenario(seed, tier="quick"):
         if sw["restricted"]:
             modules[m]["place"] = ["first" for _ in imps]
         modules[m]["suffix"] = bool(sw["suffix_names"] and prng.random() < 0.5)
+        # the same import written twice (e.g. after concatenating source files) is harmless
+        modules[m]["repeat_import"] = (prng.randrange(len(imps)) if imps and not sw["restricted"] and prng.random() < 0.12
+                                       else None)
     # generations: per generation a constant offset per function
     gens = []
     for gno in range(sw["generations"]):
@@ -246,14 +249,21 @@ def gen_scenario(seed, tier="quick"):
             done.append(m)
             how = "cli" if (sw["cli"] and rng.random() < 0.7) else "inproc"
             steps.append({"op": "compile", "gen": gno, "mod": m, "how": how, "hs": rng.randint(0, 2 ** 31 - 1), "variant": 0})
+        recompile_step = None
         if sw["recompile"] and nm > 1:
             # a module is compiled again with changed bodies (same signatures)
             # after its importers were compiled; the link must see the latest one
             m = rng.choice([x for x in range(nm)])
-            steps.append(
-                {"op": "compile", "gen": gno, "mod": m, "how": "inproc", "hs": 0, "variant": rng.randint(1, 40)}
-            )
-        for li in range(sw["links"]):
+            recompile_step = {"op": "compile", "gen": gno, "mod": m, "how": "inproc", "hs": 0, "variant": rng.randint(1, 40)}
+            if rng.random() < 0.5:
+                steps.append(recompile_step)
+                recompile_step = None
+            # else: the re-compilation happens *between* two links; the host keeps the module
+            # objects it already holds, so one root object gets linked against both versions
+        n_links = sw["links"] + (1 if recompile_step else 0)
+        for li in range(n_links):
+            if li == 1 and recompile_step:
+                steps.append(recompile_step)
             extra = [m for m in range(nm) if m not in roots and rng.random() < (0.12 if li == 0 else 0.05)]
             add = roots + extra
             rng.shuffle(add)
@@ -478,9 +488,11 @@ def module_src(sc, m, gen=0, variant=0):
     parts = [helper_src(h) for h in mod["helpers"]]
     parts += [func_src(sc, i, dk[i], variant) for i, f in enumerate(sc["funcs"]) if f["mod"] == m]
     first, mid, last = [], [], []
-    for x, place in zip(mod["imports"], mod["place"]):
+    for k, (x, place) in enumerate(zip(mod["imports"], mod["place"])):
         line = f'import "{import_name(sc, x)}";\n'
         (first if place == "first" else mid if place == "mid" else last).append(line)
+        if mod.get("repeat_import") == k:
+            last.append(line)
     if len(parts) < 2:
         # no "between two functions" position: put them between head and functions
         return "".join(first) + "".join(head) + "".join(mid) + "".join(parts) + "".join(last)
